@@ -36,6 +36,7 @@ def _case(draw, unit):
             'size': [draw(dtu.size_strategy(cap)), draw(dtu.size_strategy(cap))],
             'N': draw(st.sampled_from([1, 1, 2, 3])), 'C': draw(st.sampled_from([1, 2, 3])),
             'dtype': draw(st.sampled_from(['f64', 'f64', 'f64', 'f32'])),
+            'filt_form': draw(st.sampled_from(['names', 'names', 'names', 'tuples'])),
             'rx': draw(core.recipe_strategy()), 'k': draw(st.integers(0, 10**6))}
 
 
@@ -49,6 +50,7 @@ def common_labels(r, case):
     labs = dtu.size_labels(H, W, J)
     r.label(*labs)
     r.label('J>=2' if J >= 2 else None, case['dtype'], 'nonsquare' if H != W else None,
+            'filters_as_' + case.get('filt_form', 'names'),
             'nondefault_pair' if (case['biort'], case['qshift']) != ('near_sym_a', 'qshift_a') else None)
     r.nontrivial = (J >= 2 and bool(labs)) or (case['biort'], case['qshift']) != ('near_sym_a', 'qshift_a')
 
@@ -62,7 +64,8 @@ def run_case(case):
     tdt = dwtu.tdt(case['dtype'])
     common_labels(r, case)
     with dwtu.default_dtype(tdt):
-        fwd = DTCWTForward(biort=b, qshift=q, J=J)
+        fb, fq = dtu.filt_args(b, q, case.get('filt_form', 'names'))
+        fwd = DTCWTForward(biort=fb, qshift=fq, J=J)
     g = 1.0
     if H * W <= 192:
         r.label('full_operator')
